@@ -336,190 +336,8 @@ Proof.
   rewrite aget_aset_same in Hl'. discriminate.
 Qed.
 
-(* ------------------------------------------------------------------ *)
-(* connection pointers only ever change by being nulled (by library-internal cascades) *)
-
-Definition cmono (st st' : state) : Prop :=
-  forall w, get_connptr w st' = get_connptr w st \/ get_connptr w st' = Some None.
-
-Lemma cmono_refl st : cmono st st.
-Proof. intro w. left; reflexivity. Qed.
-
-Lemma cmono_trans a b c : cmono a b -> cmono b c -> cmono a c.
-Proof.
-  intros H1 H2 w. destruct (H2 w) as [E2|E2]; [|right; exact E2].
-  destruct (H1 w) as [E1|E1]; [left|right]; congruence.
-Qed.
-
-Lemma cmono_eq st st' : conns st' = conns st -> sconns st' = sconns st -> cmono st st'.
-Proof. intros A B w. left. apply get_connptr_eq; assumption. Qed.
-
-Lemma cmono_null ws st : cmono st (null_watchers ws st).
-Proof. intro w. rewrite get_connptr_null_watchers. destruct (existsb (wref_eqb w) ws); [right|left]; reflexivity. Qed.
-
-Lemma cmono_set_sb l sb st : cmono st (set_sb l sb st).
-Proof. intro w. left. apply get_connptr_set_sb. Qed.
-
-Lemma cmono_set_rep l r st : cmono st (set_rep l r st).
-Proof. unfold set_rep. destruct (get_sb l st); [apply cmono_set_sb|apply cmono_refl]. Qed.
-
-Lemma cmono_set_impl i im st : cmono st (set_impl i im st).
-Proof. apply cmono_eq; reflexivity. Qed.
-
-(* operations that leave every slot base where it is *)
-Definition lite (st st' : state) : Prop :=
-  slots st' = slots st /\ impls st' = impls st /\ sigs st' = sigs st /\ cmono st st'.
-
-Lemma lite_refl st : lite st st.
-Proof. split; [reflexivity|]. split; [reflexivity|]. split; [reflexivity|apply cmono_refl]. Qed.
-
-Lemma lite_trans a b c : lite a b -> lite b c -> lite a c.
-Proof.
-  intros (A1 & A2 & A3 & A4) (B1 & B2 & B3 & B4).
-  split; [congruence|]. split; [congruence|]. split; [congruence|eapply cmono_trans; eauto].
-Qed.
-
-Lemma lite_cmono a b : lite a b -> cmono a b.
-Proof. intros (_ & _ & _ & H). exact H. Qed.
-
-Lemma track_remove_lite t rid st st' : track_remove t rid st = Ok st' -> lite st st'.
-Proof.
-  unfold track_remove. destruct (live_track t st) as [tr|]; [|discriminate].
-  destruct (t_clearing tr); intro H; inversion H; (split; [reflexivity|]; split; [reflexivity|]; split; [reflexivity|]);
-    apply cmono_eq; reflexivity.
-Qed.
-
-Lemma unbind_all_lite rid refs : forall st st', unbind_all rid refs st = Ok st' -> lite st st'.
-Proof.
-  induction refs as [|t refs IH]; intros st st' H; cbn [unbind_all] in H.
-  - inversion H. apply lite_refl.
-  - destruct (track_remove t rid st) as [st1|e] eqn:E; cbn [rbind] in H; [|discriminate].
-    eapply lite_trans; [eapply track_remove_lite; eauto|apply IH; exact H].
-Qed.
-
-Lemma null_watchers_lite ws st : lite st (null_watchers ws st).
-Proof.
-  destruct (null_watchers_fields ws st) as (A & B & C & _).
-  split; [exact A|]. split; [exact C|]. split; [exact B|apply cmono_null].
-Qed.
-
-Lemma rep_delete_lite r st st' : rep_delete r st = Ok st' -> lite st st'.
-Proof.
-  unfold rep_delete. intro H.
-  set (sta := if r_attached r then with_leaked (leaked st + 1) st else st) in H.
-  assert (L0 : lite st sta).
-  { unfold sta. destruct (r_attached r); [|apply lite_refl].
-    split; [reflexivity|]. split; [reflexivity|]. split; [reflexivity|apply cmono_eq; reflexivity]. }
-  destruct (match r_fn r with Some f => unbind_all (r_id r) (f_refs f) sta | None => Ok sta end) as [st1|e] eqn:E;
-    cbn [rbind] in H; [|discriminate].
-  inversion H; subst st'. clear H.
-  assert (L1 : lite sta st1).
-  { destruct (r_fn r); [eapply unbind_all_lite; eauto|inversion E; apply lite_refl]. }
-  eapply lite_trans; [exact L0|]. eapply lite_trans; [exact L1|apply null_watchers_lite].
-Qed.
-
-Lemma sb_delete_lite sb st st' : sb_delete sb st = Ok st' -> lite st st'.
-Proof.
-  unfold sb_delete. destruct (sb_rep sb); [apply rep_delete_lite|]. intro H; inversion H; apply lite_refl.
-Qed.
-
-Lemma delete_sbs_lite l : forall st st', delete_sbs l st = Ok st' -> lite st st'.
-Proof.
-  induction l as [|x l IH]; intros st st' H; cbn [delete_sbs] in H.
-  - inversion H. apply lite_refl.
-  - destruct (sb_delete (n_sb x) st) as [st1|e] eqn:E; cbn [rbind] in H; [|discriminate].
-    eapply lite_trans; [eapply sb_delete_lite; eauto|apply IH; exact H].
-Qed.
-
-Lemma erase_node_cm i n st st' : erase_node i n st = Ok st' -> cmono st st'.
-Proof.
-  unfold erase_node. destruct (aget i (impls st)) as [im|]; [|discriminate].
-  destruct (find_node n (i_nodes im)) as [nd|]; [|discriminate]. intro H.
-  eapply cmono_trans; [apply cmono_set_impl|]. apply lite_cmono. eapply sb_delete_lite; eauto.
-Qed.
-
-Lemma parent_cleanup_cm i n st st' : parent_cleanup i n st = Ok st' -> cmono st st'.
-Proof.
-  unfold parent_cleanup. destruct (aget i (impls st)) as [im|]; [|intro H; inversion H; apply cmono_refl].
-  destruct (i_dying im); [intro H; inversion H; apply cmono_refl|].
-  destruct (N.eqb (i_exec im) 0); [apply erase_node_cm|].
-  intro H; inversion H. apply cmono_set_impl.
-Qed.
-
-Lemma rep_disconnect_cm l st st' : rep_disconnect l st = Ok st' -> cmono st st'.
-Proof.
-  unfold rep_disconnect. destruct (get_rep l st) as [r|]; [|intro H; inversion H; apply cmono_refl].
-  destruct (r_attached r).
-  - destruct l as [s|i n]; [discriminate|]. intro H.
-    eapply cmono_trans; [apply cmono_set_rep|eapply parent_cleanup_cm; eauto].
-  - intro H; inversion H. apply cmono_set_rep.
-Qed.
-
-Lemma rep_destroy_cm l st st' : rep_destroy l st = Ok st' -> cmono st st'.
-Proof.
-  unfold rep_destroy. destruct (get_rep l st) as [r|]; [|intro H; inversion H; apply cmono_refl].
-  intro H. eapply cmono_trans; [apply cmono_set_rep|].
-  destruct (r_fn r); [apply lite_cmono; eapply unbind_all_lite; eauto|inversion H; apply cmono_refl].
-Qed.
-
-Lemma rep_invalidated_cm rid st st' : rep_invalidated rid st = Ok st' -> cmono st st'.
-Proof.
-  unfold rep_invalidated. destruct (find_rep rid st) as [l|]; [|discriminate].
-  destruct (rep_disconnect l st) as [st1|e] eqn:E; cbn [rbind]; [|discriminate].
-  intro H. eapply cmono_trans; [eapply rep_disconnect_cm; eauto|].
-  destruct (find_rep rid st1) as [l'|]; [eapply rep_destroy_cm; eauto|inversion H; apply cmono_refl].
-Qed.
-
-Lemma track_round_cm fuel : forall k t st st', track_round fuel k t st = Ok st' -> cmono st st'.
-Proof.
-  induction fuel as [|fuel IH]; intros k t st st' H; cbn [track_round] in H; [inversion H; apply cmono_refl|].
-  destruct (live_track t st) as [tr|]; [|discriminate].
-  destruct (t_list tr) as [l|]; [|inversion H; apply cmono_refl].
-  destruct (nth_error l k) as [[rid [|]]|]; [| |inversion H; apply cmono_refl].
-  - destruct (rep_invalidated rid st) as [st1|e] eqn:E; cbn [rbind] in H; [|discriminate].
-    eapply cmono_trans; [eapply rep_invalidated_cm; eauto|eapply IH; eauto].
-  - eapply IH; eauto.
-Qed.
-
-Lemma cmono_set_track t tr st : cmono st (set_track t tr st).
-Proof. apply cmono_eq; reflexivity. Qed.
-
-Lemma track_notify_cm t st st' : track_notify t st = Ok st' -> cmono st st'.
-Proof.
-  unfold track_notify. destruct (live_track t st) as [tr|]; [|intro H; inversion H; apply cmono_refl].
-  destruct (t_list tr) as [l|]; [|intro H; inversion H; apply cmono_refl].
-  match goal with |- (st2 <- ?x ;; _) = _ -> _ => destruct x as [st2|e] eqn:E end; cbn [rbind]; [|discriminate].
-  intro H; inversion H.
-  eapply cmono_trans; [apply cmono_set_track|]. eapply cmono_trans; [eapply track_round_cm; eauto|apply cmono_set_track].
-Qed.
-
-Lemma disconnect_nodes_cm i ns : forall st st', disconnect_nodes i ns st = Ok st' -> cmono st st'.
-Proof.
-  induction ns as [|n ns IH]; intros st st' H; cbn [disconnect_nodes] in H; [inversion H; apply cmono_refl|].
-  destruct (rep_disconnect (LNode i n) st) as [st1|e] eqn:E; cbn [rbind] in H; [|discriminate].
-  eapply cmono_trans; [eapply rep_disconnect_cm; eauto|eapply IH; eauto].
-Qed.
-
-Lemma destroy_impl_cm i st st' : destroy_impl i st = Ok st' -> cmono st st'.
-Proof.
-  unfold destroy_impl, upd_impl. destruct (aget i (impls st)) as [im0|]; cbn [rbind]; [|discriminate].
-  match goal with |- match aget i (impls ?s) with _ => _ end = _ -> _ => set (st1 := s) end.
-  destruct (aget i (impls st1)) as [im|]; [|discriminate].
-  destruct (disconnect_nodes i (map n_id (i_nodes im)) st1) as [st2|e] eqn:E2; cbn [rbind]; [|discriminate].
-  destruct (aget i (impls st2)) as [im2|]; [|discriminate].
-  destruct (delete_sbs (i_nodes im2) (set_impl i (with_nodes [] im2) st2)) as [st4|e] eqn:E4; cbn [rbind]; [|discriminate].
-  intro H; inversion H.
-  apply (cmono_trans st st1); [apply cmono_set_impl|].
-  eapply cmono_trans; [eapply disconnect_nodes_cm; eauto|].
-  eapply cmono_trans; [apply cmono_set_impl|].
-  eapply cmono_trans; [apply lite_cmono; eapply delete_sbs_lite; eauto|]. apply cmono_eq; reflexivity.
-Qed.
-
-Lemma release_check_cm i st st' : release_check i st = Ok st' -> cmono st st'.
-Proof.
-  unfold release_check. destruct (aget i (impls st)) as [im|]; [|intro H; inversion H; apply cmono_refl].
-  destruct (N.eqb (refcount i st) 0 && negb (i_dying im)); [apply destroy_impl_cm|intro H; inversion H; apply cmono_refl].
-Qed.
+(* the pass showing that connection pointers only ever change by being nulled in library code
+   (cmono, lite and the _cm / _lite lemmas) is in SigSafe.v: the collection of orphans needs it *)
 
 (* ------------------------------------------------------------------ *)
 (* reference counts *)
@@ -626,7 +444,7 @@ Proof.
   split; [exact Hnone|].
   intros w n Hw. apply conn_ptr_some in Hw.
   assert (Cm' : cmono st st') by (eapply cmono_trans; [exact Cm|eapply release_check_cm; eauto]).
-  destruct (Cm' w) as [X|X].
+  destruct (Cm' w) as [X|[X _]].
   - exfalso. rewrite Hw in X. destruct (wf_conn_target st' w i n W' X) as (sb & r & Hg & _).
     destruct (get_sb_node_inv _ _ _ _ Hg) as (imx & ndx & Hx & _). congruence.
   - unfold conn_ptr. rewrite X. reflexivity.
@@ -833,7 +651,7 @@ Qed.
 Lemma slot_ops_frame : S_slot_ops_frame.
 Proof.
   intros prog rec o st st' s H Hso Ht Hs. unfold live_slot.
-  destruct o as [t|t|td ts|td ts|t|t|t|a rk body refs|a rk|sn so|sn so|sd ss|sd ss|a arg catch|a b|a|a|a|g k|gn go|gn go|gd gs|gd gs|g|g|g|g a c front mv|g arg catch|g|g b|g|a g|c|cn co|cd cs|c|c b|c|c|k c|k|k c|kn ko|kd ks|k1 k2|k c|k|k b|k|k| | ];
+  destruct o as [t|t|td ts|td ts|t|t|t|a rk body refs|a rk|sn so|sn so|sd ss|sd ss|a arg catch|a b|a|a|a|g k|gn go|gn go|gd gs|gd gs|g|g|g|g a c front mv|g arg catch|g|g b|g|a g|c|cn co|cd cs|c|c b|c|c|c|c|k c|k|k c|kn ko|kd ks|k1 k2|k c|k|k b|k|k| | ];
     try discriminate Hso; cbn [touches_slot] in Ht; cbn [step] in Hs;
     try (apply orb_false_elim in Ht; destruct Ht as [Ht Ht2]; apply N.eqb_neq in Ht2);
     apply N.eqb_neq in Ht.
